@@ -962,6 +962,13 @@ fn process_write_batch(
             .extend(delete_operations.drain(..));
     }
 
+    // The device lock is held from the allocation to the end of the write transaction.
+    // A free run can start with a retirement marker that still claims the blocks behind
+    // it; until this batch has overwritten or journalled the blocks it was given, no
+    // other batch may publish a record further down the same run, or a crash would make
+    // recovery trust the stale marker and discard that record.
+    let held_disk_guard = (!prepared_writes.is_empty()).then(|| disk_io.write());
+
     if !prepared_writes.is_empty() {
         let mut free_space_guard = free_space.write();
         for index in 0..prepared_writes.len() {
@@ -1023,7 +1030,8 @@ fn process_write_batch(
             &[],
             0,
         );
-        let mut disk_guard = disk_io.write();
+        let mut disk_guard =
+            held_disk_guard.expect("the device lock is taken together with the allocations");
         for write in &prepared_writes {
             mark_reservation_dirty(&write.entry);
         }
